@@ -137,6 +137,9 @@ static void sink(const unsigned char *s, size_t n, void *arg) {
                 if (!t && rc != 0) viol("rc:nonzero-without-tld-check", m, t, s, n, "accepted without TLD checking but rc=%d", rc);
                 if (t && rc > 0 && (literal || rc >= TLD_TYPE_MAX)) viol("rc:class-for-literal-or-out-of-range", m, t, s, n, "rc=%d", rc);
                 if (t && rc == 0 && !literal) viol("rc:host-name-not-classified", m, t, s, n, "TLD checking on, host name accepted with rc 0 (no class)");
+                /* "either half syntactically invalid => no flag" holds whatever the decision was */
+                if ((lv == R_REJ || dv == R_REJ) && nf != 0) { MC_ADD(C_INVALID, 1);
+                    viol("flag-set-on-syntactically-invalid-address(accepted)", m, t, s, n, "local part %s, domain %s (reference), yet rc=%d and flags v4=%d v6=%d dom=%d", lv == R_REJ ? "invalid" : "ok", dv == R_REJ ? "invalid" : "ok", rc, r->is_ipv4, r->is_ipv6, r->is_domain); }
             } else {
                 if (rc < -EEAV_MAX + 1 || rc == -EEAV_NO_ERROR) viol("rc:negative-out-of-range", m, t, s, n, "rc=%d", rc);
                 if ((lv == R_REJ || dv == R_REJ) && nf != 0) { MC_ADD(C_INVALID, 1);
@@ -218,10 +221,11 @@ static void sink(const unsigned char *s, size_t n, void *arg) {
         /* truth of the named condition */
         int lv = (at >= 0 && ln >= 1) ? ref_local(L, ln, m, REF_OPTS) : R_REJ;
         int whyset = 0, fam = RF_NONE, dv = R_REJ;
-        unsigned char conv[4096]; const unsigned char *DD = D; size_t ddn = dn; int conv_ok = 1;
+        static unsigned char conv[70100]; const unsigned char *DD = D; size_t ddn = dn; int conv_ok = 1;
         if (dn && D[0] != '[') {
-            if (m == 3 && dn >= 4000) conv_ok = 0;      /* conversion not attempted by the harness: nothing is claimed about IDN errors */
-            if (m == 3 && dn < 4000) { char *a = NULL; char tmp[4096]; memcpy(tmp, D, dn); tmp[dn] = 0; int r = idn2_to_ascii_8z(tmp, &a, IDN2_NONTRANSITIONAL);
+            /* mode 6531 applies the host-name rules to the CONVERTED name: the harness converts it too (whatever its length - soft hyphens can pad a
+             * tiny name to kilobytes); where its own conversion fails nothing is claimed about the domain codes */
+            if (m == 3) { char *a = NULL; static char tmp[70100]; memcpy(tmp, D, dn); tmp[dn] = 0; int r = idn2_to_ascii_8z(tmp, &a, IDN2_NONTRANSITIONAL);
                 if (r == IDN2_OK && strlen(a) < sizeof conv) { ddn = strlen(a); memcpy(conv, a, ddn); DD = conv; } else conv_ok = 0; if (a) free(a); }
             dv = ref_domain_why(DD, ddn, REF_OPTS, &whyset);
         } else if (dn) dv = ref_domainpart(D, dn, REF_OPTS, &fam);
